@@ -570,4 +570,29 @@ theorem loadBlt_valid (ls : List Line) (d : Doc Rat) (h : loadBlt ls = .ok d) :
               exact deindexAll_valid _ bal [] hr (by simp)
             · simp at hd2
 
+/-! ### a written string line is never cut by the comment rule -/
+
+theorem lastQuoteIdx_snoc_quote : ∀ l : List Char, lastQuoteIdx (l ++ ['"']) = some l.length
+  | [] => by simp [lastQuoteIdx]
+  | c :: t => by simp [lastQuoteIdx, lastQuoteIdx_snoc_quote t]
+
+theorem lstrip_cons_nonws (c : Char) (t : List Char) (h : isWs c = false) : lstrip (c :: t) = c :: t := by
+  simp [lstrip, h]
+
+theorem rstrip_snoc_nonws (l : List Char) (c : Char) (h : isWs c = false) : rstrip (l ++ [c]) = l ++ [c] := by
+  simp [rstrip, lstrip, h]
+
+theorem cleanLine_strLine (name : List Char) : cleanLineL (strLine name) = strLine name := by
+  have hq : isWs '"' = false := by decide
+  have e : strLine name = ('"' :: name) ++ ['"'] := rfl
+  have e2 : strLine name = '"' :: (name ++ ['"']) := rfl
+  have hs : strip (strLine name) = strLine name := by
+    unfold strip
+    rw [e2, lstrip_cons_nonws _ _ hq, ← e2, e, rstrip_snoc_nonws _ _ hq]
+  unfold cleanLineL
+  rw [hs]
+  unfold cutComment
+  rw [e, lastQuoteIdx_snoc_quote]
+  simp [hashIdx]
+
 end VL.Blt
